@@ -131,10 +131,11 @@ def src(node):
 class Tr:
     """Translator for one target.  env: python name -> (gallina text, type)."""
 
-    def __init__(self, bind=None, rec=None):
+    def __init__(self, bind=None, rec=None, none_elem=None):
         self.bind = bind or {}          # unparse text -> (gallina text, type)
         self.rec = rec                  # (python function name, gallina callee, elem type) for generators
         self.used = set()               # bound parameters actually used
+        self.none_elem = none_elem      # type given to a bare `None` comprehension element (from the target spec)
 
     # -- helpers
     def as_int(self, node, env, narrowed):
@@ -191,7 +192,9 @@ class Tr:
             cur = "(filter (fun %s => %s) %s)" % (pat, self.as_bool(c, env2, narrowed), cur)
         et, ety = self.expr(node.elt, env2, narrowed)
         if ety == NONE:
-            raise Unsupported("comprehension of bare None")
+            if self.none_elem is None:
+                raise Unsupported("comprehension of bare None")
+            et, ety = "None", self.none_elem
         return "(map (fun %s => %s) %s)" % (pat, et, cur), TList(ety), (pat, env2, cur)
 
     # -- main
@@ -401,6 +404,13 @@ class Tr:
             if not (isinstance(ty, tuple) and ty[0] == "list"):
                 raise Unsupported("enumerate() of %s" % (ty,))
             return "(py_enumerate %s)" % t, TList(TProd(Z, ty[1]))
+        if name == "zip" and len(args) == 2:
+            at, aty = self.expr(args[0], env, narrowed)
+            bt, bty = self.expr(args[1], env, narrowed)
+            for ty in (aty, bty):
+                if not (isinstance(ty, tuple) and ty[0] == "list"):
+                    raise Unsupported("zip() of %s" % (ty,))
+            return "(combine %s %s)" % (at, bt), TList(TProd(aty[1], bty[1]))
         if name == "range" and len(args) in (1, 2):
             lo = "0" if len(args) == 1 else self.as_int(args[0], env, narrowed)
             hi = self.as_int(args[-1], env, narrowed)
@@ -423,39 +433,45 @@ class Tr:
         raise Unsupported("call `%s`" % key)
 
     # -------------------------------------------------------------- statements
-    def fun_block(self, stmts, env, skip):
-        """straight-line function body ending in `return e` -> (text, type)"""
+    def fun_block(self, stmts, env, skip, narrowed=frozenset()):
+        """straight-line function body ending in `return e` -> (text, type).
+        `narrowed`: texts of Optional names the control flow has established
+        to be not None (`if X is None: return ...` narrows X afterwards)."""
         if not stmts:
             raise Unsupported("function body falls off the end (returns None)")
         s, rest = stmts[0], stmts[1:]
         if _is_docstring(s):
-            return self.fun_block(rest, env, skip)
+            return self.fun_block(rest, env, skip, narrowed)
         if src(s) in skip:
             skip[src(s)] += 1
-            return self.fun_block(rest, env, skip)
+            return self.fun_block(rest, env, skip, narrowed)
         if isinstance(s, ast.Return):
             if s.value is None:
                 raise Unsupported("bare return in a function")
-            return self.expr(s.value, env)
+            return self.expr(s.value, env, narrowed)
         if isinstance(s, ast.Assign):
-            n, t, ty = self.assign(s, env)
+            n, t, ty = self.assign(s, env, narrowed)
             env2 = dict(env)
             env2[n] = (coq_name(n), ty)
-            bt, bty = self.fun_block(rest, env2, skip)
+            bt, bty = self.fun_block(rest, env2, skip, frozenset(narrowed) - {n})
             return "let %s := %s in\n  %s" % (coq_name(n), t, bt), bty
         if isinstance(s, ast.If):
-            c = self.as_bool(s.test, env, frozenset())
-            bt, bty = self.fun_block(list(s.body) + rest, env, skip)
-            ot, oty = self.fun_block(list(s.orelse) + rest, env, skip)
+            c = self.as_bool(s.test, env, narrowed)
+            nb, no = set(narrowed), set(narrowed)
+            w = self.none_test(s.test)
+            if w is not None and re.match(r"^[A-Za-z_][A-Za-z0-9_]*$", w[0]):
+                (no if w[1] else nb).add(w[0])
+            bt, bty = self.fun_block(list(s.body) + rest, env, skip, frozenset(nb))
+            ot, oty = self.fun_block(list(s.orelse) + rest, env, skip, frozenset(no))
             if bty != oty:
                 raise Unsupported("branches return different types")
             return "(if %s then %s else %s)" % (c, bt, ot), bty
         raise Unsupported("statement `%s`" % src(s).split("\n")[0])
 
-    def assign(self, s, env):
+    def assign(self, s, env, narrowed=frozenset()):
         if len(s.targets) != 1 or not isinstance(s.targets[0], ast.Name):
             raise Unsupported("assignment target `%s`" % src(s).split("\n")[0])
-        t, ty = self.expr(s.value, env)
+        t, ty = self.expr(s.value, env, narrowed)
         if ty == NONE:
             raise Unsupported("assignment of bare None")
         return s.targets[0].id, t, ty
@@ -613,10 +629,13 @@ def t_function(spec, fn, text):
     function parameters), body is assignments then `return e`."""
     if arg_names(fn) != spec["args"]:
         raise Unsupported("signature changed: %s" % arg_names(fn))
-    tr = Tr(bind={k: (v[0], v[1]) for k, v in spec.get("bind", {}).items()})
+    tr = Tr(bind={k: (v[0], v[1]) for k, v in spec.get("bind", {}).items()}, none_elem=spec.get("none_elem"))
     env = {p: (coq_name(p), ty) for p, ty in spec.get("env", {}).items()}
     skip = {s: 0 for s in spec.get("skip", [])}
     body, ty = tr.fun_block(list(fn.body), env, skip)
+    for k in spec.get("bind", {}):
+        if k not in tr.used:
+            raise Unsupported("expected expression `%s` no longer occurs in %s" % (k, spec["qual"]))
     for s, cnt in skip.items():
         if cnt != 1:
             raise Unsupported("expected glue statement not found exactly once: %s" % s.split("\n")[0])
@@ -682,6 +701,121 @@ def t_select(spec, fn, text):
             name, " ".join("(%s : %s)" % (n, ty_str(pt)) for n, pt in plist), ty_str(ty), t)
         app = "(%s %s)" % (name, " ".join(n for n, _ in plist)) if plist else name
         done[attr] = (app, ty, {n for n, _ in plist})
+    return out
+
+
+def t_loopfun(spec, fn, text):
+    """function of the shape
+
+           <glue statements listed in `skip`>
+           x = e ...                      (state initialisation)
+           for <target> in <seq>:         (body: assignments to state variables,
+               ...                         if/elif/else, `return e`)
+           <straight-line tail ending in return>
+
+    -> a structural Fixpoint over the sequence carrying the state variables
+    (early `return e` inside the loop = the result e), plus a wrapper."""
+    if arg_names(fn) != spec["args"]:
+        raise Unsupported("signature changed: %s" % arg_names(fn))
+    tr = Tr(bind={k: (v[0], v[1]) for k, v in spec.get("bind", {}).items()})
+    env = {p: (coq_name(p), ty) for p, ty in spec.get("env", {}).items()}
+    skip = {s: 0 for s in spec.get("skip", [])}
+    stmts = [s for s in fn.body if not _is_docstring(s)]
+    pre, loop, post = [], None, []
+    for s in stmts:
+        if src(s) in skip:
+            skip[src(s)] += 1
+            continue
+        if loop is None and isinstance(s, ast.For):
+            loop = s
+        elif loop is None:
+            pre.append(s)
+        else:
+            post.append(s)
+    for s_, cnt in skip.items():
+        if cnt != 1:
+            raise Unsupported("expected glue statement not found exactly once: %s" % s_.split("\n")[0])
+    if loop is None or loop.orelse:
+        raise Unsupported("expected exactly one plain for loop")
+    for sub in ast.walk(loop):
+        if isinstance(sub, (ast.Break, ast.Continue, ast.For, ast.While)) and sub is not loop:
+            raise Unsupported("break/continue/nested loop inside the loop")
+    # state initialisation
+    inits = []
+    for s in pre:
+        if not isinstance(s, ast.Assign):
+            raise Unsupported("statement before the loop: `%s`" % src(s).split("\n")[0])
+        n, t, ty = tr.assign(s, env)
+        inits.append((n, t))
+        env[n] = (coq_name(n), ty)
+    state = []
+    for sub in ast.walk(loop):
+        if isinstance(sub, ast.Name) and isinstance(sub.ctx, ast.Store):
+            in_target = any(sub is n for n in ast.walk(loop.target))
+            if in_target:
+                continue
+            if sub.id not in env:
+                raise Unsupported("loop assigns `%s`, which is not initialised before the loop" % sub.id)
+            if sub.id in spec.get("env", {}):
+                raise Unsupported("loop assigns the parameter `%s`" % sub.id)
+            if sub.id not in state:
+                state.append(sub.id)
+    it, ity = tr.expr(loop.iter, env)
+    if not (isinstance(ity, tuple) and ity[0] == "list"):
+        raise Unsupported("for over %s" % (ity,))
+    pat, env_body = tr.binder(loop.target, ity[1], env)
+    if pat.startswith("'"):
+        pat = pat[1:]
+    lname = spec["name"] + "_loop"
+    params = [(n, t) for n, t in spec["params"]]
+    carried = [(n, env[n][1]) for n in state]
+
+    def call(e):
+        return "(%s rest_ %s)" % (lname, " ".join([n for n, _ in params] + [e[n][0] for n in state]))
+
+    def block(ss, e):
+        if not ss:
+            return call(e), None
+        s, rest = ss[0], ss[1:]
+        if isinstance(s, ast.Return):
+            if s.value is None:
+                raise Unsupported("bare return")
+            return tr.expr(s.value, e)
+        if isinstance(s, ast.Assign):
+            n, t, ty = tr.assign(s, e)
+            if n not in state and n in e:
+                raise Unsupported("loop rebinds `%s`" % n)
+            if n in state and ty != e[n][1]:
+                raise Unsupported("state variable `%s` changes type" % n)
+            e2 = dict(e)
+            e2[n] = (coq_name(n), ty)
+            bt, bty = block(rest, e2)
+            return "(let %s := %s in %s)" % (coq_name(n), t, bt), bty
+        if isinstance(s, ast.If):
+            c = tr.as_bool(s.test, e, frozenset())
+            bt, bty = block(list(s.body) + rest, e)
+            ot, oty = block(list(s.orelse) + rest, e)
+            if bty is not None and oty is not None and bty != oty:
+                raise Unsupported("branches return different types")
+            return "(if %s then %s else %s)" % (c, bt, ot), (bty if bty is not None else oty)
+        raise Unsupported("statement in loop: `%s`" % src(s).split("\n")[0])
+
+    body, bty = block(list(loop.body), env_body)
+    tail, tty = tr.fun_block(post, env, {})
+    if tty != spec["ret"] or (bty is not None and bty != tty):
+        raise Unsupported("result type %s / %s, expected %s" % (bty, tty, spec["ret"]))
+    for k in spec.get("bind", {}):
+        if k not in tr.used:
+            raise Unsupported("expected expression `%s` no longer occurs in %s" % (k, spec["qual"]))
+    allp = " ".join("(%s : %s)" % (coq_name(n), ty_str(t)) for n, t in params + carried)
+    out = header(spec, text)
+    out += "Fixpoint %s (l_ : %s) %s : %s :=\n  match l_ with\n  | [] => %s\n  | %s :: rest_ => %s\n  end.\n\n" % (
+        lname, ty_str(ity), allp, ty_str(tty), tail, pat.replace("(", "(").strip(), body)
+    wrapper = call({n: (coq_name(n), None) for n in state}).replace("rest_", it, 1)
+    for n, t in reversed(inits):
+        wrapper = "let %s := %s in\n  %s" % (coq_name(n), t, wrapper)
+    out += "Definition %s %s : %s :=\n  %s.\n" % (
+        spec["name"], " ".join("(%s : %s)" % (coq_name(n), ty_str(t)) for n, t in params), ty_str(tty), wrapper)
     return out
 
 
@@ -762,6 +896,36 @@ TARGETS = {
             ("self._parent_shift", "quotient_parent_shift"),
         ],
     ),
+    "can_give_terms": dict(
+        name="can_give_terms", out="ForestCanGiveTerms", kind=t_function,
+        file="comb_spec_searcher/rule_db/forest.py", qual="TableMethod._can_give_terms",
+        decorators=["staticmethod"], args=["shifts"],
+        params=[("shifts", TList(TOpt(Z)))], env={"shifts": TList(TOpt(Z))},
+        ret=BOOL,
+    ),
+    "compute_shift": dict(
+        name="compute_shift", out="ForestComputeShift", kind=t_function,
+        file="comb_spec_searcher/rule_db/forest.py", qual="TableMethod._compute_shift",
+        args=["self", "rule_key", "shifts_for_zero"],
+        # the two reads of the function table are the parameters: the value of
+        # the parent and the values of the children, in order
+        params=[("parent_value", TOpt(Z)), ("children_values", TList(TOpt(Z))), ("shifts_for_zero", TList(Z))],
+        env={"shifts_for_zero": TList(Z)},
+        bind={
+            "self._function[rule_key[0]]": ("parent_value", TOpt(Z)),
+            "map(self._function.__getitem__, rule_key[1])": ("children_values", TList(TOpt(Z))),
+        },
+        none_elem=TOpt(Z), ret=TList(TOpt(Z)),
+    ),
+    "preimage_gap": dict(
+        name="preimage_gap", out="ForestPreimageGap", kind=t_loopfun,
+        file="comb_spec_searcher/rule_db/forest.py", qual="Function.preimage_gap",
+        args=["self", "length"],
+        params=[("preimage_count", TList(Z)), ("length", Z)], env={"length": Z},
+        bind={"self._preimage_count": ("preimage_count", TList(Z))},
+        skip=["if length <= 0:\n    raise ValueError('length argument must be positive')"],
+        ret=Z,
+    ),
     "compositions": dict(
         name="compositions", out="Compositions", kind=t_generator,
         file="comb_spec_searcher/utils.py", qual="compositions",
@@ -819,8 +983,9 @@ def translate_target(name, source=None):
             source = f.read()
     tree = ast.parse(source)
     fn = find_def(tree, spec["qual"])
-    if fn.decorator_list:
-        raise Unsupported("%s is decorated" % spec["qual"])
+    if [src(d) for d in fn.decorator_list] != spec.get("decorators", []):
+        raise Unsupported("%s: decorators %s, expected %s" % (
+            spec["qual"], [src(d) for d in fn.decorator_list], spec.get("decorators", [])))
     text = ast.get_source_segment(source, fn) or ""
     return spec["kind"](spec, fn, text)
 
